@@ -427,6 +427,7 @@ def run(res, tier):
     count_agree_rule(res, fx)
     item_size_at_use_rule(res, fx, tcs)
     restore_only_reads_rule(res, fx)
+    equal_by_content_rule(res, fx)
     res.explanation = ('Static decision of the size/shape half of C01 by symbolic evaluation (no code is run): a small abstract interpreter over the resolved AST turns every serialiser into a polynomial over '
                        'symbolic counts and sub-object sizes (Write*/Read* widths, for/iterator loops as sums, null/flag tests as alternatives, virtual calls resolved in the concrete class, switch tables evaluated '
                        'under the type-code constraint) and requires exact equality between Flatten and FlattenedSize for all %d array classes, all %d single-item type codes and the five container/value classes; '
@@ -616,6 +617,40 @@ def restore_only_reads_rule(res, fx):
                        'equality, checksum and re-serialised bytes change)' % (f.q, (bad.get('q') or '').split('::')[-1] if bad is not None else ''))
     if n < 2:
         raise AnalysisBroken('RESTORE-VERBATIM: Point::Unflatten / Rect::Unflatten not found (%d)' % n)
+
+
+def equal_by_content_rule(res, fx, rule='EQ-CONTENT'):
+    """a raw buffer comes back from the wire as (length, bytes) and nothing else: equality must not depend on anything the wire does not carry"""
+    from msa import guards as G
+    res.rule(rule, 'ByteBuffer::operator== ("true iff byte-for-byte the same data") returns false because of what the buffer POINTERS are (null or not) only where the byte count is known to be non-zero: '
+                   'an empty buffer that still owns an allocation and an empty buffer that owns none hold the same data, and the second is what the first turns into on the wire', floor=1)
+    fs = [f for f in fx.funcs.values() if f.full and f.q == 'muscle::ByteBuffer::operator==']
+    if not fs:
+        raise AnalysisBroken('%s: ByteBuffer::operator== has no analysed body' % rule)
+    f = fs[0]
+    ptrs = set(v['d'] for v in f.walk() if v['k'] == 'VarDecl' and v.type().rstrip().endswith('*'))
+    n = 0
+    for r in f.walk():
+        if r['k'] != 'ReturnStmt' or not r['ch'] or A.strip_casts(r['ch'][0]).get('v') != 0:
+            continue
+        atoms = G.atoms_at(f, r)
+        about_ptr = [cn for (cn, t) in atoms if any((x['k'] == 'DeclRefExpr' and x.get('d') in ptrs) or (x.is_call() and (x.get('q') or '').endswith('::GetBuffer')) for x in cn.walk())
+                     and not any(x.is_call() and (x.get('q') or '').split('::')[-1] in ('memcmp',) for x in cn.walk())]
+        if not about_ptr:
+            continue
+        n += 1
+        nonzero = False
+        for (cn, t) in atoms:
+            zt = A.zero_test(cn, t)
+            if zt is not None and zt[1] is False and any(x.is_call() and (x.get('q') or '').endswith('::GetNumBytes') for x in G.local_init(f, zt[0]).walk()):
+                nonzero = True
+        res.ob(rule, f.where(r), 'ByteBuffer::operator== line %s: `return false` that depends on the buffer pointers is taken only for non-empty buffers' % r.get('l'), nonzero, function=f.q,
+               key='%s|%s|%s' % (rule, f.q, A.render_key(about_ptr[0])),
+               message='ByteBuffer::operator== returns false under `%s` without knowing that the byte count is non-zero: two EMPTY buffers compare unequal when exactly one of them still has an '
+                       '(unused) allocation — a ByteBuffer that was shrunk to 0 bytes and added to a Message is not == to its own round-tripped copy, so Message::operator== changes over the trip'
+                       % about_ptr[0].text(60))
+    if n < 1:
+        res.info(rule, f.where(), 'no `return false` of ByteBuffer::operator== depends on the buffer pointers')
 
 
 def dispatch_rule(res, fx):
